@@ -245,7 +245,8 @@ impl LeaderSelection {
         let total_weight_big = BigUint::from(total_weight);
         let ret_big = hash_big % total_weight_big;
         // Assumes that `ret_big` does not exceed 64 bits due to the modulo operation with a 64 bits-capped value.
-        ret_big.to_u64_digits()[0]
+        // `to_u64_digits()` of zero is empty.
+        ret_big.to_u64_digits().first().copied().unwrap_or(0)
     }
 }
 
